@@ -139,11 +139,16 @@ def gen_graphs(tier, wd, seed):
                 dict(V=3, EMIN=4, EMAX=4, WSET={3, 4, 6}, WD=4, DSET={1, 2, 3, 4}, EXTV=3, STRIDE=499, OFFSET=rnd.randrange(499)),
                 dict(V=4, EMIN=5, EMAX=5, WSET={4, 6}, WD=4, DSET={1, 2, 3}, EXTV=2, STRIDE=8009, OFFSET=rnd.randrange(8009))]
     st = 0
+    # larger random multigraphs first (the recorder takes graphs in file order after its own shuffle of equal-size classes)
+    rc = dict(V=5, EMIN=5, EMAX=6, WSET={6, 8, 10, 12}, WD=4, DSET={1, 2, 3}, EXTV=5, NSAMP=120 if tier == "quick" else 1500)
+    r = core.tlc("Gen_TableRand", core.cfg_text(constants=rc, invariants=["Emit"]), "gen_rand", wd, workers=12, timeout=3600, coverage=False,
+                 replay_to=path, seed=seed)
+    st += r.distinct
     for i, c in enumerate(runs):
         r = core.tlc("Gen_Table", core.cfg_text(constants=c, invariants=["Emit"]), "gen_%d" % i, wd, workers=12,
                      timeout=3600, coverage=False, replay_to=path)
         st += r.distinct
-    return path, runs, st
+    return path, runs + [dict(rc, MODE="random")], st
 
 
 def run(prop, tier, seed, replay=None):
